@@ -114,6 +114,9 @@ type Interp struct {
 	// Dom lists the features that may be consulted; consulting one that Env
 	// does not assign aborts the run with Exit "need" (lazy valuation).
 	Dom Domain
+	// StopAt lists opaque callees at which a run ends with Exit "stop:<name>"
+	// (blocking calls such as Cond.Wait that close a loop).
+	StopAt map[string]bool
 	// OnCall, if set, may supply the abstract result of an opaque call.
 	OnCall func(it *Interp, name string, args []AV) (AV, bool)
 	// Inline decides whether a static callee is interpreted (true) or kept
@@ -219,6 +222,10 @@ func (it *Interp) Run(fn *ssa.Function, args []AV) AOutcome {
 					need = nf.key
 					return
 				}
+				if sr, ok := r.(stopRun); ok {
+					exit = "stop:" + sr.name
+					return
+				}
 				panic(r)
 			}
 		}()
@@ -253,6 +260,8 @@ func (it *Interp) lookup(key string) AV {
 }
 
 type needFeature struct{ key string }
+
+type stopRun struct{ name string }
 
 // envGet returns the valuation of key if it is a feature.
 func (it *Interp) envGet(key string) (AV, bool) {
@@ -502,6 +511,9 @@ func (it *Interp) doCall(fr *frame, c ssa.CallInstruction, deferred bool) AV {
 		kind = "defer"
 	}
 	it.Effects = append(it.Effects, Effect{Kind: kind, Name: name, Args: aks, Pos: c.Pos()})
+	if it.StopAt[name] && !deferred {
+		panic(stopRun{name})
+	}
 	if it.OnCall != nil {
 		if v, ok := it.OnCall(it, name, args); ok {
 			return v
@@ -1062,6 +1074,7 @@ type DecideCfg struct {
 	Dom     Domain
 	Inline  func(*ssa.Function) bool
 	OnCall  func(it *Interp, name string, args []AV) (AV, bool)
+	StopAt  map[string]bool
 	NonNil  map[string]bool
 	Args    func(it *Interp) []AV
 	MaxRuns int
@@ -1095,7 +1108,7 @@ func (p *Prog) Decide(fn *ssa.Function, cfg DecideCfg) (res DecideResult) {
 			res.Und = fmt.Sprintf("more than %d abstract runs", cfg.MaxRuns)
 			return res
 		}
-		it := &Interp{P: p, Env: env, Dom: cfg.Dom, Inline: cfg.Inline, OnCall: cfg.OnCall, NonNilCalls: cfg.NonNil}
+		it := &Interp{P: p, Env: env, Dom: cfg.Dom, Inline: cfg.Inline, OnCall: cfg.OnCall, NonNilCalls: cfg.NonNil, StopAt: cfg.StopAt}
 		var args []AV
 		fork := func(k string) {
 			for _, v := range cfg.Dom[k] {
